@@ -210,9 +210,22 @@ func VerifC17Kill(h *verifh.H) {
 	killAt := h.Choice("killAt", 3) // 0 never; 1, 2: while that (successful) sink call is being delivered
 	killed := false
 	sink.killAt = killAt
-	if h.Choice("event", 2) == 0 {
+	overlapped := false
+	switch ev := h.Choice("event", 3); {
+	case ev == 0:
 		sink.kill = func() { killed = true; runner.killJob("job-1") }
-	} else {
+	case ev == 2:
+		// the job is killed twice (an impatient operator), and a trigger of the same job arrives
+		// while the killed run is still winding down: it is refused, the job id never runs twice at once
+		sink.kill = func() {
+			killed = true
+			runner.killJob("job-1")
+			runner.killJob("job-1")
+			before := src.reads
+			j.Run()
+			overlapped = src.reads > before
+		}
+	default:
 		// instead of a kill, another trigger of the same job arrives while it runs (a cron tick,
 		// an on-change event): it is refused and must not disturb the run in flight
 		sink.kill = func() { j.Run() }
@@ -234,6 +247,8 @@ func VerifC17Kill(h *verifh.H) {
 		runs++
 	}
 	h.Assert(len(runner.raffle.runningJobs) == 0, "run slot released")
+	h.Assert(!overlapped, "a trigger arriving while a killed run of the same job id is still winding down is refused")
+	h.Assert(runner.raffle.ticketsIncr == 1 && runner.raffle.ticketsFull == 1, "every ticket is back in the pool exactly once :: incr="+strconv.Itoa(runner.raffle.ticketsIncr)+" full="+strconv.Itoa(runner.raffle.ticketsFull))
 	if killed {
 		h.Assert(runs == 1, "a killed run is not re-executed :: runs="+strconv.Itoa(runs)+" rejects="+strconv.FormatBool(rejects))
 	} else if rejects {
